@@ -103,6 +103,11 @@ def gen_program(rng, name, n_ifaces=None, customs=None, error=None, profile="gen
                 k2, nm, safe = rng.choice(all_names)
                 if k2 == kind:
                     continue
+            elif kind in KINDS_ENUM and rng.random() < 0.04:
+                # two handlers of one kind whose names differ only in where the words split (`set_up` / `setup`)
+                w1, w2 = rng.sample(T.WORDS_SAFE, 2)
+                nm, safe = f"{w1}_{w2}", True
+                pending.append(f"{w1}{w2}")
             elif ext_names and rng.random() < 0.18:
                 nm, safe = T.extended_name(rng), False
                 if kind in KINDS_ENUM and rng.random() < 0.3:
@@ -215,6 +220,12 @@ def decorate(rng, prog):
                 h.setdefault("sv_attrs", []).append(rng.choice(INERT_VARIANT_ATTRS).replace("{n}", str(n)))
                 if rng.random() < 0.5:
                     h["sv_attrs_above"] = len(h["sv_attrs"])
+        for h in part["handlers"]:
+            # forwarded argument attributes without any effect on the wire: the argument stays where it was declared
+            if h["kind"] != "reply" and len(h["args"]) >= 2 and rng.random() < 0.15:
+                a = h["args"][rng.randrange(len(h["args"]) - 1)]
+                if not a.get("attrs"):
+                    a["attrs"] = [rng.choice(["doc = \" forwarded doc\"", "schemars(description = \"x\")", "cfg_attr(any(), serde(skip))", "serde(bound = \"\")"])]
         if part["id"] != "c" and rng.random() < 0.5:
             part["custom_flags_reversed"] = True
         if part["id"] != "c" and rng.random() < 0.3:
@@ -269,7 +280,9 @@ def to_jsonable(prog):
 # ---------------------------------------------------------------- reply tables (C07-C09, C14, C18)
 
 DATA_MODES = ["raw", "raw_opt", "typed", "opt", "instantiate", "instantiate_opt", None]
-REPLY_NAMES = ["done", "failed", "both", "minted", "swap_done", "remote_instantiated", "on_transfer", "finish", "cleanup", "notify_owner"]
+REPLY_NAMES = ["done", "failed", "both", "minted", "swap_done", "remote_instantiated", "on_transfer", "finish", "cleanup", "notify_owner",
+               # names that differ only by a suffix / prefix the id constants also carry
+               "swap", "swap_reply", "finish_id", "reply_done"]
 
 
 def data_attr(mode):
@@ -329,6 +342,9 @@ def gen_reply_table(rng, prog, n_names=None, force_modes=None):
             m["reply_on_first"] = True
         if outcome == "success":
             m["data"] = modes.pop(0) if modes else rng.choice(DATA_MODES)
+            if rng.random() < 0.3:
+                # other attributes in front of the data marker do not change the mode
+                m["data_attr_prefix"] = rng.choice(["#[allow(unused_variables)] ", "#[doc = \"the data\"] ", "#[cfg_attr(any(), deprecated)] "])
             if m["data"] in ("typed", "opt"):
                 m["data_ti"] = intern_type(prog, rng.choice([T.STRING, T.U64, T.PT, T.SHAPE, T.vec(T.U32), T.COIN, T.UINT128, T.BOOL,
                                                               T.option(T.U32), T.option(T.STRING)]))
@@ -423,7 +439,10 @@ def gen_ep_config_program(rng, name, overrides, migrate, reply, replies_feature)
         rn = rng.choice(["reply", "on_reply", "handle_reply"])
         p["parts"][0]["handlers"].append({"kind": "reply", "name": rn, "safe": True, "hid": f"c.reply.{rn}", "part": "c",
                                           "legacy": True, "args": [], "ret_err": "own"})
-    elif reply == "feature-only":
+    if reply in ("table", "legacy") and rng.random() < 0.6:
+        # reply methods anywhere among the other handlers, e.g. before the migrate handler
+        rng.shuffle(p["parts"][0]["handlers"])
+    if reply == "feature-only":
         # `sv::features(replies)` switched on, but no reply method declared: there is nothing to emit a reply entry point for
         p["replies"] = True
     p["overrides"] = [{"kind": k, "fn": f"ov_{k}", "msg": ("Reply" if k == "reply" else "svmon::OvMsg")} for k in overrides]
